@@ -9,7 +9,7 @@ LEVEL_NOTE = ("Lean theorems over the model of greedy/UCB1/Softmax/Thompson/Popu
               "{fit, partial_fit, add_arm, remove_arm}; tie to /repo by correspondence on generated histories "
               "(predict_expectations, sampler request parameters). Float rounding and the samplers are outside the model.")
 
-PROFILE = {"name": "C01", "lp": G.CF_KINDS, "np": [None],
+PROFILE = {"long_batches": True, "name": "C01", "lp": G.CF_KINDS, "np": [None],
            "weights": {"fit": 1, "pfit": 4, "query": 3, "add": 2, "rem": 1.5, "warm": 0}}
 
 
